@@ -33,6 +33,13 @@ PROPS = {
         explanation="Theorems (all operands): nodes = intersection; root and edge containment bounds exactly as stated; idempotence (on nodes, surviving roots, edges among present nodes), commutativity, absorption, emptiness; result always well-formed and normalised; second-operand-wins for every generated schema field. Tie: Intersect observed on random pairs vs Model/Graph.v.",
         assumptions=[GRAPH_NOTE],
     ),
+    "C15": dict(
+        props_v="Props/C15.v",
+        corr_v=["Corr/CheckC08.v"],
+        n_quick=70, n_thorough=2500,
+        explanation="Theorems (all lists: cyclic, self loops, dangling targets, duplicate ids, any root set; all starts; all depths >= 1): node sets of NodeSiblings/NodeDescendants/NodeGraph = one-hop / depth-bounded / unbounded reachability with the root-boundary rule; edges = the list's edges among returned nodes; start node sole root; monotone in depth; independent of node/edge/root order; the traversal fuel (number of nodes) always suffices (simple-path argument), which is the model-level termination statement. Tie: the three traversals observed on random multigraphs vs Model/Graph.v; oracle = textbook BFS in Go incl. an exhaustive 3-node sweep; calls run under a 5 s watchdog.",
+        assumptions=[GRAPH_NOTE, "termination of the Go recursion itself is observed (watchdog), the theorem is about the model's fuel"],
+    ),
 }
 
 NOT_APPLICABLE = {}
